@@ -123,18 +123,14 @@ class C2Beacon(AbstractC2, discriminator="c2-beacon"):
                 )
 
             c2_remote_ip = IPv4Address(c2_remote_ip)
-            frequency = request[-1].get("keep_alive_frequency")
-            protocol = request[-1].get("masquerade_protocol")
-            port = request[-1].get("masquerade_port")
+            # options that are not given keep the defaults of configure()
+            options = {
+                key: request[-1][key]
+                for key in ("keep_alive_frequency", "masquerade_protocol", "masquerade_port")
+                if request[-1].get(key) is not None
+            }
 
-            return RequestResponse.from_bool(
-                self.configure(
-                    c2_server_ip_address=c2_remote_ip,
-                    keep_alive_frequency=frequency,
-                    masquerade_protocol=protocol,
-                    masquerade_port=port,
-                )
-            )
+            return RequestResponse.from_bool(self.configure(c2_server_ip_address=c2_remote_ip, **options))
 
         rm.add_request("configure", request_type=RequestType(func=_configure))
         return rm
